@@ -1279,7 +1279,17 @@ def r9_registered_routes_survive_the_builders(ctx):
     ctx.check(R, "by-value-methods", n >= 2, "methods of ApiDescription taking `self` by value: %d" % n, None, nontrivial=False)
 
 
-RULES = [("C01.R9", r9_registered_routes_survive_the_builders), ("C01.R8", r8_one_edge_kind_per_node), ("C01.R1", r1_request_wiring), ("C01.R2", r2_one_endpoint), ("C01.R3", r3_walk_integrity), ("C01.R4", r4_key_normalisation),
+def r10_segments_are_decoded_once_and_only_decoded(ctx):
+    """`each path variable the handler receives equals the corresponding request path segment`, `a matching request is handled by exactly
+    that endpoint`: the segments the trie walk compares and binds are the request's own, percent-decoded once and not otherwise rewritten.
+    This is C03.R1, re-evaluated here (adversary change C01-N: `segment.replace('+', "%20")` before decoding turned `/tags/c++` into
+    `c  ` and made a literal template `/lang/c++/info` unreachable)."""
+    from . import c03
+    from .lib_c01 import Renamed
+    c03.r1_decode_once(Renamed(ctx, "C01.R10", "the request path segments fed to the trie walk are the client's segments, percent-decoded exactly once, with no other rewriting"))
+
+
+RULES = [("C01.R10", r10_segments_are_decoded_once_and_only_decoded), ("C01.R9", r9_registered_routes_survive_the_builders), ("C01.R8", r8_one_edge_kind_per_node), ("C01.R1", r1_request_wiring), ("C01.R2", r2_one_endpoint), ("C01.R3", r3_walk_integrity), ("C01.R4", r4_key_normalisation),
          ("C01.R5", r5_one_version_predicate), ("C01.R6", r6_order_independence), ("C01.R6E2", r6e2_overlap_table),
          ("C01.R7", r7_versioned_routes_need_versioned_server)]
 
